@@ -17,17 +17,17 @@ def run(res, pool, tier, seed):
                      constants=dict(GENK={5}, NGEN=16000, S=2, BODIES=set(), KF=set(FLAT), SEED=sd, NSHARD=160, NXCHECK=8))]
     else:
         jobs = [dict(module="MC_FlatBody.tla", tag="catalogue", invariants=INVS, timeout=7200,
-                     constants=dict(GENK=set(), NGEN=1, S=2, BODIES=set(POLYH + POLYG), KF=set(FLAT), SEED=sd, NSHARD=16, NXCHECK=16)),
+                     constants=dict(GENK=set(), NGEN=1, S=2, BODIES=set(POLYH + POLYG), KF=set(FLAT), SEED=sd, NSHARD=40, NXCHECK=16)),
                 dict(module="MC_FlatBody.tla", tag="general-hulls", invariants=INVS, timeout=7200,
-                     constants=dict(GENK={4, 5, 6}, NGEN=2500, S=2, BODIES=set(), KF=set(FLAT), SEED=sd, NSHARD=36, NXCHECK=16))]
+                     constants=dict(GENK={4, 5, 6}, NGEN=2500, S=2, BODIES=set(), KF=set(FLAT), SEED=sd, NSHARD=90, NXCHECK=16))]
     # points and half-line origins 1/8 of a lattice unit off the faces of lopsided bodies (segments would need |pts|^2 anchors)
     jobs.append(dict(module="MC_FlatBody.tla", tag="near-s8", invariants=["Typed", "InBoth", "Emit"], timeout=3600,
                      constants=dict(GENK=set(), NGEN=1, S=8, BODIES={"tet", "pyr", "wedge", "ppyr", "obl"}, KF={"Point", "HalfLine"}, SEED=sd,
-                                    NSHARD=400 if tier == "quick" else 40, NXCHECK=1000)))
+                                    NSHARD=400 if tier == "quick" else 100, NXCHECK=1000)))
     # bodies with edges / faces of generic slope: crossing points are not dyadic
     jobs.append(dict(module="MC_FlatBody.tla", tag="generic-slopes", invariants=INVS, timeout=3600,
                      constants=dict(GENK=set(), NGEN=1, S=2, BODIES={"gprismA", "gprismB", "gtriA", "gtriB"}, KF=set(FLAT), SEED=sd,
-                                    NSHARD=250 if tier == "quick" else 40, NXCHECK=8)))
+                                    NSHARD=250 if tier == "quick" else 100, NXCHECK=8)))
     engine.run_jobs(res, jobs, pool)
     import traces
     traces.run_for(res, ["unit_tests", "driver"] if tier != "quick" else ["unit_tests"], {"C02"}, seed=seed + 1, nsessions=250 if tier == "quick" else 2500)
